@@ -105,16 +105,14 @@ def failing_obligations(make_log):
 
 
 def run(ctx):
-    # G14 imports G17.Model, whose compiled form depends on G17's Tables.v: hold g17's lock for the whole
-    # run so that a C17 check (which regenerates and rebuilds g17) cannot interleave
-    with common.Lock("group-g17"):
-        run_locked(ctx)
-
-
-def run_locked(ctx):
     ob_failed = []
-    ok17, msg17 = ctx.tables("g17")
-    ctx.coq_make("g17")
+    # G14 imports G17.Regex / RegexProofs only (no dependency on G17's Tables.v): make sure they are built,
+    # under g17's lock because a C17 check may be building the same directory
+    with common.Lock("group-g17"):
+        g17 = os.path.join(common.VERIF, "coq", "g17")
+        if not os.path.exists(os.path.join(g17, "Tables.v")):
+            ctx.tables("g17")
+        ctx.coq_make("g17")
     ctx.log("g17 built")
     ok, msg = ctx.tables(GROUP)
     if not ok:
